@@ -220,6 +220,31 @@ def id_source_rules(idx: Index, res: Result, rule: str = "MONO") -> FuncInfo:
                 fact = min(fact + 1, 2)
         return [fact]
     flow = Flow(cfg, [0], tr)
+    # the id is used up as soon as it was handed out: nothing that can create another agent (the agent's own initialize(), a hook)
+    # runs between the factory call and the increment - a re-entrant create_agent would hand the same id out again
+    fac_ids = {id(c) for c in fac}
+
+    def tr_gap(node: Node, fact, label):
+        a_ = node.ast
+        if node.kind in ("stmt", "test") and a_ is not None and label != "exc":
+            if any(id(c) in fac_ids for c in iter_calls(a_)):
+                return ["handed-out"]
+            if isinstance(a_, ast.AugAssign) and isinstance(a_.target, ast.Attribute) and a_.target.attr == "next_agent_id":
+                return ["counted"]
+        return [fact]
+    gflow = Flow(cfg, ["idle"], tr_gap)
+    gap_calls = []
+    for nd in cfg.stmt_nodes():
+        if "handed-out" in gflow.at[nd.id] and nd.ast is not None and not any(id(c) in fac_ids for c in iter_calls(nd.ast)):
+            for c in iter_calls(nd.ast):
+                if call_name(c) not in ("isinstance", "format", "str", "type", "len", "log") and not (call_name(c) or "").endswith("Exception") \
+                        and not isinstance(getattr(nd.ast, "exc", None), ast.Call):
+                    gap_calls.append((nd, c))
+    res.check(rule, "create_agent counts the id before anything else runs", not gap_calls, create.loc(gap_calls[0][1]) if gap_calls else create.loc(), create.qual,
+              src(gap_calls[0][1]) if gap_calls else "factory(...) ; next_agent_id += 1",
+              "create_agent calls %s after the factory received next_agent_id and before next_agent_id is incremented: an agent that creates another "
+              "agent there (a team creating its members in initialize()) gets the same id" % (src(gap_calls[0][1]) if gap_calls else ""),
+              key=rule + "/Model.create_agent/call-before-increment")
     for nd in cfg.stmt_nodes():
         if any(call_name(c) == "append" and (call_recv(c) or "").endswith(".agents") for c in iter_calls(nd.ast)):
             ok = flow.at[nd.id] == {1}
@@ -465,6 +490,11 @@ def check_c11(idx: Index, tier: str, res: Result) -> None:
     # (0) an id names one agent for the life of the model (routing by id delivers to "the agent that has that id and no other")
     id_source_rules(idx, res, "UNIQUE")
     run_step = idx.func(SIMSCHED, "SimultaneousScheduler.run_step")
+    # every agent with due events handles them in this step: the loop over the live agent list is not shifted under the iterator
+    _mp = params(run_step.node)[1]
+    _al = [n for n in run_step.node.body if isinstance(n, ast.For) and (dotted(n.iter.args[0] if isinstance(n.iter, ast.Call) and n.iter.args else n.iter) or "") == "%s.agents" % _mp]
+    if len(_al) == 1:
+        agents_list_not_edited_in_place(idx, res, "ONCE", _al[0])
     hde = idx.func(SCHED, "Scheduler.handle_delayed_event")
     enq = idx.func(MODEL, "Model.enqueue_event")
     recv = idx.func(AGENT, "Agent.receive_event")
@@ -805,6 +835,33 @@ def _float_writers(idx: Index, cls_file: str, cls_name: str, attrs: Set[str]) ->
     return out
 
 
+def agents_list_not_edited_in_place(idx: Index, res: Result, rule: str, aloop: ast.For) -> None:
+    """Shared by C12 and C11: the step loop iterates the live list model.agents, so no Model method shrinks or reorders it in place."""
+    snapshot = isinstance(aloop.iter, ast.Call) and call_name(aloop.iter) in ("list", "tuple")
+    if not snapshot:
+        mcls = idx.cls(MODEL, "Model")
+        for name, defs in mcls.methods.items():
+            fi_ = defs[-1]
+            for n in walk_no_nested(fi_.node):
+                hit = None
+                if isinstance(n, (ast.Assign, ast.AugAssign)):
+                    tg = n.targets if isinstance(n, ast.Assign) else [n.target]
+                    for t in tg:
+                        if isinstance(t, ast.Subscript) and dotted(t.value) == "self.agents":
+                            hit = n
+                if isinstance(n, ast.Delete) and any(isinstance(t, ast.Subscript) and dotted(t.value) == "self.agents" for t in n.targets):
+                    hit = n
+                if isinstance(n, ast.Call) and isinstance(n.func, ast.Attribute) and dotted(n.func.value) == "self.agents" and \
+                        n.func.attr in ("remove", "pop", "insert", "sort", "reverse", "clear", "extend"):
+                    hit = n
+                if hit is not None:
+                    res.check(rule, "Model.%s does not edit the agent list in place" % name, False, fi_.loc(hit), fi_.qual, norm_stmt(hit)[:100],
+                              "Model.%s edits self.agents in place (%s) while SimultaneousScheduler.run_step iterates directly over "
+                              "model.agents: when an agent or handler calls it during a step, the list shifts under the iterator and the next "
+                              "live agent neither handles its events nor acts in that step" % (name, norm_stmt(hit)[:60]),
+                              key="%s/Model.%s/in-place-edit-of-agents" % (rule, name))
+
+
 def check_c12(idx: Index, tier: str, res: Result) -> None:
     res.explanation = ("Static decision of the loop and ordering structure of SimultaneousScheduler: run() is range(start, stop+1) x "
                        "range(round(1/dt)) with exactly one run_step per iteration on the running path and integer-kinded range "
@@ -898,30 +955,7 @@ def check_c12(idx: Index, tier: str, res: Result) -> None:
     avar = aloop.target.id if isinstance(aloop.target, ast.Name) else None
     # the loop iterates the live list itself: nothing reachable from agent code may shrink or reorder it in place
     # (delete_agents rebinds self.agents, so the running iteration keeps the list it started with; append is how agents are born)
-    snapshot = isinstance(aloop.iter, ast.Call) and call_name(aloop.iter) in ("list", "tuple")
-    if not snapshot:
-        mcls = idx.cls(MODEL, "Model")
-        for name, defs in mcls.methods.items():
-            fi_ = defs[-1]
-            for n in walk_no_nested(fi_.node):
-                hit = None
-                if isinstance(n, (ast.Assign, ast.AugAssign)):
-                    tg = n.targets if isinstance(n, ast.Assign) else [n.target]
-                    for t in tg:
-                        if isinstance(t, ast.Subscript) and dotted(t.value) == "self.agents":
-                            hit = n
-                if isinstance(n, ast.Delete) and any(isinstance(t, ast.Subscript) and dotted(t.value) == "self.agents" for t in n.targets):
-                    hit = n
-                if isinstance(n, ast.Call) and isinstance(n.func, ast.Attribute) and dotted(n.func.value) == "self.agents" and \
-                        n.func.attr in ("remove", "pop", "insert", "sort", "reverse", "clear", "extend"):
-                    hit = n
-                if hit is not None:
-                    res.check("ORDER", "Model.%s does not edit the agent list in place" % name, False, fi_.loc(hit), fi_.qual, norm_stmt(hit)[:100],
-                              "Model.%s edits self.agents in place (%s) while SimultaneousScheduler.run_step iterates directly over "
-                              "model.agents: when an agent or handler calls it during a step, the list shifts under the iterator and the next "
-                              "live agent neither handles its events nor acts in that step" % (name, norm_stmt(hit)[:60]),
-                              key="ORDER/Model.%s/in-place-edit-of-agents" % name)
-        res.ob("ORDER", "no Model method edits the agent list in place (the step loop iterates it directly)", True)
+    agents_list_not_edited_in_place(idx, res, "ORDER", aloop)
     cfg = build_cfg(rs.node, rs.qual)
     EVENTS = ["distribute", "begin_round", "handle_events", "act", "end_round", "collect"]
 
@@ -1089,6 +1123,33 @@ def check_c12(idx: Index, tier: str, res: Result) -> None:
                   % (src(cnd), v, src(o_hi if v == sp[2] else i_hi)), key="LAST/run_step/%s" % v)
     res.check("LAST", "last-step test constrains round and step", seen_vars == {sp[2], sp[3]}, rs.loc(lt), rs.qual, src(lt),
               "the last-step predicate does not constrain both the round and the step", key="LAST/run_step/both")
+
+    # a run starts from empty statistics whether or not it collects every step: with collection off only the final step's entry remains
+    from ..util import implied as _implied
+    runf = idx.func(SIMSCHED, "SimultaneousScheduler.run")
+    resets = [c for c in iter_calls(runf.node) if call_name(c) == "reset" and "data_collector" in (call_recv(c) or "")]
+    if not resets:
+        res.find("LAST", "LAST/run/no-collector-reset", runf.loc(), runf.qual, "data_collector.reset()", "SimultaneousScheduler.run never resets the data collector: the statistics of earlier runs stay in the collector")
+    for c in resets:
+        atoms = []
+
+        def rec(stmts, acc):
+            for st in stmts:
+                if any(x is c for x in ast.walk(st)):
+                    if isinstance(st, ast.If) and not any(x is c for x in ast.walk(st.test)):
+                        inb = any(x is c for b in st.body for x in ast.walk(b))
+                        rec(st.body if inb else st.orelse, acc + _implied(st.test, inb))
+                    elif isinstance(st, (ast.For, ast.While, ast.With, ast.Try)):
+                        rec(list(st.body) + list(getattr(st, "orelse", [])), acc)
+                    else:
+                        atoms.extend(acc)
+                    return
+        rec(runf.node.body, [])
+        foreign = [(a, t) for a, t in atoms if "data_collector" not in src(a)]
+        res.check("LAST", "run() resets the data collector whenever there is one", not foreign, runf.loc(c), runf.qual,
+                  "; ".join("%s is %s" % (src(a), t) for a, t in atoms)[:100],
+                  "the data collector is reset only when %s: a run with data collection switched off keeps the statistics of earlier runs next to its "
+                  "final-step entry" % " and ".join("%s is %s" % (src(a), t) for a, t in foreign), key="LAST/run/conditional-collector-reset")
 
     # ---- DELEGATE ----------------------------------------------------------------------------
     mrun = idx.func(MODEL, "Model.run")
@@ -1348,6 +1409,43 @@ def check_c13(idx: Index, tier: str, res: Result) -> None:
                       norm_stmt(n)[-120:], "the aggregate stored under [property_type] is filled from %s, which does not depend on the type" % src(n.value)[-80:],
                       key="KEYS/run_scenario/generic-column")
     res.floor("aggregate stores in HybridRunner.run_scenario", nbr, 2)
+    # one frame per agent type: the frames are aligned on their own time index when they are concatenated, a frame shared by several
+    # agent types aligns every later column to the index of the first type (times at which that type had no agents are dropped)
+    from ..util import per_iteration_objects
+    nfr = 0
+    for fn_ in [f for f in idx.module(HYBRID).functions.values() if f.cls == "HybridRunner"]:
+        for lp_ in [x for x in walk_no_nested(fn_.node) if isinstance(x, ast.For)]:
+            nfr += 1
+        for lp_, name_, crea_, add_ in per_iteration_objects(fn_.node):
+            res.find("KEYS", "KEYS/%s/shared-frame-%s" % (fn_.qual, name_), fn_.loc(crea_), fn_.qual, norm_stmt(crea_)[:80],
+                     "%s creates %s once, before the loop over %s, and every iteration writes its columns into it and collects it: all iterations "
+                     "share one frame, so the columns of later agent types are aligned to the time index of the first one"
+                     % (fn_.qual, name_, src(lp_.iter)[:40] if isinstance(lp_, ast.For) else "the loop"))
+    res.floor("loops of HybridRunner examined for shared per-iteration objects", nfr, 6)
+    nframes = 0
+    for fn_ in [f for f in idx.module(HYBRID).functions.values() if f.cls == "HybridRunner"]:
+        for a_ in [n for n in walk_no_nested(fn_.node) if isinstance(n, ast.Assign) and isinstance(n.targets[0], ast.Name) and isinstance(n.value, ast.Call)
+                   and call_name(n.value) == "get_df_for_agent"]:
+            dname = a_.targets[0].id
+            L = None
+            for lp_ in ast.walk(fn_.node):
+                if isinstance(lp_, ast.For) and any(x is a_ for x in ast.walk(lp_)) and (L is None or any(x is lp_ for x in ast.walk(L))):
+                    L = lp_
+            if L is None:
+                continue
+            targets_ = {n.targets[0].value.id for n in ast.walk(L) if isinstance(n, ast.Assign) and isinstance(n.targets[0], ast.Subscript)
+                        and isinstance(n.targets[0].value, ast.Name) and n.targets[0].value.id != dname
+                        and any(isinstance(x, ast.Name) and x.id == dname for x in ast.walk(n.value))}
+            for X in sorted(targets_):
+                nframes += 1
+                crea = [n for n in walk_no_nested(fn_.node) if isinstance(n, ast.Assign) and isinstance(n.targets[0], ast.Name) and n.targets[0].id == X]
+                inside = [c_ for c_ in crea if any(x is c_ for x in ast.walk(L))]
+                res.check("KEYS", "%s: the frame %s filled per agent type is created per agent type" % (fn_.qual, X), bool(inside) or not crea, fn_.loc(crea[0]) if crea else fn_.loc(),
+                          fn_.qual, norm_stmt(crea[0])[:70] if crea else "",
+                          "%s fills %s with the columns of every agent type inside the loop over %s but creates it outside that loop: the columns of later "
+                          "types are aligned to the time index of the first type, and times at which the first type had no agents disappear for all of them"
+                          % (fn_.qual, X, src(L.iter)[:30]), key="KEYS/%s/frame-shared-by-agent-types" % fn_.qual)
+    res.floor("per-agent-type frames in HybridRunner", nframes, 2)
     gdf = idx.func(HYBRID, "HybridRunner.get_df_for_agent")
     reads = [n for n in ast.walk(gdf.node) if isinstance(n, ast.Subscript) and src(n).startswith("states[column]")]
     okr = any(src(n) == "states[column][agent_property][property_type]" for n in reads) and any(
